@@ -89,7 +89,8 @@ PROPERTY = {
     'lean_module': 'TracingModel.Props.C18',
     'namespace': 'C18',
     'units': ['LogFacts', 'Levels'],
-    'required_theorems': ['C18.code_facts', 'C18.bridge_iff', 'C18.log_until_installed', 'C18.exists_monotone', 'C18.levels_bijection_monotone'],
+    'required_theorems': ['C18.code_facts', 'C18.bridge_iff', 'C18.log_until_installed', 'C18.exists_monotone', 'C18.levels_bijection_monotone',
+                          'C18.bridge_history', 'C18.log_history_exact'],
     'streams': [_b, _f],
     'rule': 'stream bridge: one process per case: LogTracer installed with 0-2 ignored prefixes; 6-25 ops: install a collector (level cap none/1..5, 0-2 accepted target prefixes), pass a log record (5 levels, 10 targets incl. ignored '
             'prefixes and the empty string, 7 messages, module/file/line present or absent); compared = number of events and the normalised metadata and message of each. stream feature: one process per history over tracing built '
